@@ -64,7 +64,7 @@ Proof.
 Qed.
 
 Lemma fint_z_int : forall n, fint_z (VS (SInt n)) = Ok n.
-Proof. intro n. cbn. apply int_of_fl_of_int. Qed.
+Proof. intro n. reflexivity. Qed.
 
 Lemma fbool_out : forall v w, fbool v = Ok w -> exists b, w = VS (SBool b).
 Proof.
@@ -222,6 +222,16 @@ Proof.
   exists f. symmetry. exact H.
 Qed.
 
+Lemma fnumber_out : forall v w, fnumber v = Ok w -> is_number w = true.
+Proof.
+  intros v w H. unfold fnumber in H. destruct (is_number v) eqn:E.
+  - injection H as H. subst w. exact E.
+  - destruct (py_floatv_out v w H) as [f Hf]. subst w. reflexivity.
+Qed.
+
+Lemma fnumber_number : forall w, is_number w = true -> fnumber w = Ok w.
+Proof. intros w H. unfold fnumber. rewrite H. reflexivity. Qed.
+
 (* ------------------------------------------------------------------ *)
 (* T1: every converter is idempotent                                   *)
 (* ------------------------------------------------------------------ *)
@@ -244,6 +254,7 @@ Proof.
   - unfold lcstr in *. destruct v as [x| | | | |]; try discriminate H.
     destruct x; try discriminate H; injection H as H; subst w;
       rewrite lower_idem; reflexivity.
+  - apply fnumber_number. apply fnumber_out with (v := v). exact H.
   - reflexivity.
 Qed.
 
@@ -323,6 +334,9 @@ Proof.
   - unfold lcstr in H. destruct v as [x| | | | |]; try discriminate H.
     destruct x; try discriminate H; try discriminate Hc.
     injection H as H. subst w. destruct s; [discriminate Hc|reflexivity].
+  - pose proof (fnumber_out v w H) as Hn.
+    destruct w as [x| | | | |]; try discriminate Hn.
+    destruct x; try discriminate Hn; reflexivity.
   - injection H as H. subst w. exact Hc.
 Qed.
 
@@ -602,7 +616,7 @@ End Dict.
 (* T7: HDF5 attribute round trip                                        *)
 (* ------------------------------------------------------------------ *)
 Definition roundtrippable (c : conv) : bool :=
-  match c with CFintlist | CId => false | _ => true end.
+  match c with CFintlist | CFnumber | CId => false | _ => true end.
 
 Theorem attr_roundtrip : forall c v w x,
     roundtrippable c = true ->
@@ -616,8 +630,7 @@ Proof.
     injection Hx as Hx. subst x. reflexivity.
   - destruct (fint_out v w Ha) as [n Hn]. subst w. cbn [h5] in Hx.
     destruct (int64_ok n); [|discriminate Hx]. injection Hx as Hx. subst x.
-    unfold fint, fint_z, py_float, py_float_scalar. cbn [bind].
-    rewrite int_of_fl_of_int. reflexivity.
+    reflexivity.
   - destruct (fbool_out v w Ha) as [b Hb]. subst w.
     injection Hx as Hx. subst x. apply fbool_npbool.
   - destruct (fboolorfloat_out v w Ha) as [[b Hb]|[f [Hf Hz]]]; subst w;
@@ -709,6 +722,7 @@ Proof.
       * f_equal. f_equal. lia.
       * f_equal. f_equal. lia.
     + destruct y as [m| | |]; try discriminate H.
+      destruct (int64_ok (Z.quot m 8)); [|discriminate H].
       injection H as H. subst x. cbn [nf nf_scalar scalar_num].
       cbn [wf_arr0] in Hwf. unfold fl_of_int. f_equal. f_equal.
       pose proof (Z.quot_exact m 8) as Hq.
@@ -742,7 +756,9 @@ Proof.
     destruct (seq_dtype (concat (r :: l'))); [|discriminate H].
     injection H as H. subst x. reflexivity.
   - destruct d; try (injection H as H; subst x; reflexivity).
-    destruct y; try discriminate H. injection H as H. subst x. reflexivity.
+    destruct y; try discriminate H.
+    destruct (int64_ok (Z.quot m 8)); [|discriminate H].
+    injection H as H. subst x. reflexivity.
   - injection H as H. subst x. reflexivity.
   - injection H as H. subst x. reflexivity.
 Qed.
@@ -807,6 +823,9 @@ Proof.
   - unfold lcstr in H. destruct v as [x| | | | |]; try discriminate H.
     destruct x; try discriminate H; try discriminate Hb.
     injection H as H. subst w. reflexivity.
+  - pose proof (fnumber_out v w H) as Hn.
+    destruct w as [x| | | | |]; try discriminate Hn.
+    destruct x; try discriminate Hn; reflexivity.
 Qed.
 
 Lemma type_covers_sound : forall t u w,
@@ -835,7 +854,7 @@ Definition conv_eqb (a b : conv) : bool :=
   match a, b with
   | CStr, CStr | CFloat, CFloat | CFint, CFint | CFbool, CFbool
   | CFboolorfloat, CFboolorfloat | CFintlist, CFintlist | CF1d, CF1d
-  | CF2d, CF2d | CLcstr, CLcstr | CId, CId => true
+  | CF2d, CF2d | CLcstr, CLcstr | CFnumber, CFnumber | CId, CId => true
   | _, _ => false
   end.
 
@@ -905,3 +924,266 @@ Proof.
   apply perm_trans with (kv :: items d); [apply insert_perm|].
   apply perm_skip. exact IH.
 Qed.
+
+(* ------------------------------------------------------------------ *)
+(* several assignments: frame and last-assignment properties            *)
+(* ------------------------------------------------------------------ *)
+Lemma str_eqb_neq : forall a b, a <> b -> str_eqb a b = false.
+Proof.
+  intros a b H. destruct (str_eqb a b) eqn:E; [|reflexivity].
+  exfalso. apply H. apply str_eqb_eq. exact E.
+Qed.
+
+Lemma dget_dset_other : forall d k k2 v,
+    k <> k2 -> dget (dset d k2 v) k = dget d k.
+Proof.
+  induction d as [|[k' v'] d IH]; intros k k2 v H; cbn [dset dget].
+  - rewrite (str_eqb_neq k k2 H). reflexivity.
+  - destruct (str_eqb k2 k') eqn:E; cbn [dget].
+    + apply str_eqb_eq in E. subst k'.
+      rewrite (str_eqb_neq k k2 H). reflexivity.
+    + destruct (str_eqb k k'); [reflexivity|]. apply IH. exact H.
+Qed.
+
+Section Update.
+  Variable tbl : list row.
+  Variable feats : list str.
+
+  Lemma setitem_frame : forall sec k v d d' ws k0,
+      setitem tbl feats sec k v d = Done d' ws ->
+      lower k <> k0 -> dget d' k0 = dget d k0.
+  Proof.
+    intros sec k v d d' ws k0 H Hne. rewrite setitem_eq in H.
+    destruct (decode v) as [v1|e|]; try discriminate H.
+    destruct (warns tbl feats sec (lower k) v1) as [|w0 ws0].
+    - destruct (apply (func_of tbl sec (lower k)) v1) as [w|e|];
+        try discriminate H.
+      injection H as H _. subst d'. apply dget_dset_other.
+      intro E. apply Hne. symmetry. exact E.
+    - injection H as H _. subst d'. reflexivity.
+  Qed.
+
+  (* entries whose key is not assigned are left alone *)
+  Theorem update_frame : forall sec items d d' ws k0,
+      update tbl feats sec items d = Done d' ws ->
+      (forall k v, In (k, v) items -> lower k <> k0) ->
+      dget d' k0 = dget d k0.
+  Proof.
+    intros sec items. induction items as [|[k v] items IH];
+      intros d d' ws k0 H Hk; cbn [update] in H.
+    - injection H as H _. subst d'. reflexivity.
+    - destruct (setitem tbl feats sec k v d) as [d1 ws1|e|] eqn:E1;
+        try discriminate H.
+      destruct (update tbl feats sec items d1) as [d2 ws2|e|] eqn:E2;
+        try discriminate H.
+      injection H as H _. subst d'.
+      rewrite (IH d1 d2 ws2 k0 E2).
+      + apply (setitem_frame _ _ _ _ _ _ _ E1). apply (Hk k v). left.
+        reflexivity.
+      + intros k' v' Hin. apply (Hk k' v'). right. exact Hin.
+  Qed.
+
+  (* the last assignment of a key decides what is stored: after an update
+     that ends with (k, v), the entry is what the specification says *)
+  Theorem update_last_wins : forall sec items k v d d' ws w,
+      update tbl feats sec (items ++ [(k, v)]) d = Done d' ws ->
+      spec_store tbl feats sec k v = Ok (Some w) ->
+      dget d' (lower k) = Some w.
+  Proof.
+    intros sec items k v d d' ws w H Hs.
+    rewrite update_app in H.
+    destruct (update tbl feats sec items d) as [d1 ws1|e|]; try discriminate H.
+    cbn [update] in H.
+    pose proof (setitem_meets_spec tbl feats sec k v d1) as Hm.
+    rewrite Hs in Hm. rewrite Hm in H.
+    injection H as H _. subst d'. apply dget_dset.
+  Qed.
+
+  (* a rejected last assignment keeps what was there *)
+  Theorem update_rejected_keeps : forall sec items k v d d' ws,
+      update tbl feats sec (items ++ [(k, v)]) d = Done d' ws ->
+      spec_store tbl feats sec k v = Ok None ->
+      exists d1 ws1, update tbl feats sec items d = Done d1 ws1 /\ d' = d1.
+  Proof.
+    intros sec items k v d d' ws H Hs.
+    rewrite update_app in H.
+    destruct (update tbl feats sec items d) as [d1 ws1|e|]; try discriminate H.
+    cbn [update] in H.
+    pose proof (setitem_meets_spec tbl feats sec k v d1) as Hm.
+    rewrite Hs in Hm. destruct Hm as [w0 [ws0 Hm]]. rewrite Hm in H.
+    injection H as H _. exists d1, ws1. split; [reflexivity|].
+    symmetry. exact H.
+  Qed.
+
+  (* Configuration level: section and key are case-insensitive *)
+  Variable allsecs : list str.
+
+  Theorem cfg_update_case_insensitive : forall sec sec' items c,
+      lower sec = lower sec' ->
+      cfg_update tbl feats sec items c = cfg_update tbl feats sec' items c.
+  Proof. intros. unfold cfg_update. rewrite H. reflexivity. Qed.
+
+  Theorem cfg_item_case_insensitive : forall sec sec' key key' v c,
+      lower sec = lower sec' -> lower key = lower key' ->
+      cfg_item tbl feats allsecs sec key v c
+      = cfg_item tbl feats allsecs sec' key' v c.
+  Proof.
+    intros sec sec' key key' v c Hs Hk. unfold cfg_item, cfg_update.
+    rewrite Hs. cbn [update].
+    rewrite (setitem_case_insensitive tbl feats (lower sec') key key' v _ Hk).
+    reflexivity.
+  Qed.
+
+  (* item assignment to an existing or known section is update with one
+     entry, i.e. the dictionary-level assignment on that section *)
+  Theorem cfg_item_is_setitem : forall sec key v c,
+      (cget c (lower sec) <> None \/
+       mem_str (lower sec) allsecs || str_eqb (lower sec) s_user = true) ->
+      cfg_item tbl feats allsecs sec key v c =
+      match setitem tbl feats (lower sec) key v
+                    (match cget c (lower sec) with Some d => d | None => [] end)
+      with
+      | Done d' ws => CDone (cset c (lower sec) d') (ws ++ [])
+      | Exc e => CExc e
+      | OUnmod => CUnmod
+      end.
+  Proof.
+    intros sec key v c H. unfold cfg_item.
+    assert (cfg_update tbl feats sec [(key, v)] c =
+            match setitem tbl feats (lower sec) key v
+                    (match cget c (lower sec) with Some d => d | None => [] end)
+            with
+            | Done d' ws => CDone (cset c (lower sec) d') (ws ++ [])
+            | Exc e => CExc e
+            | OUnmod => CUnmod
+            end) as E.
+    { unfold cfg_update. cbn [update].
+      destruct (setitem tbl feats (lower sec) key v _); reflexivity. }
+    destruct (cget c (lower sec)) eqn:Ec.
+    - exact E.
+    - destruct H as [H|H]; [contradiction|]. rewrite H. exact E.
+  Qed.
+
+  (* a section of a configuration file whose lines are well-formed entries
+     for known keys is the update with the (name, text) pairs, in order *)
+  Definition good_entry (sec : str) (e : str * str * str) : Prop :=
+    let '(line, rawvar, rawval) := e in
+    let l := strip (before_hash line) in
+    (starts_with [91] l && ends_with [93] l) = false /\
+    count_c 61 rawvar = 0 /\ l = rawvar ++ 61 :: rawval /\
+    lower (strip rawvar) <> [] /\
+    key_exists tbl feats sec (lower (strip rawvar)) = true /\
+    file_text rawval <> [].
+
+  Theorem load_section_agrees : forall sec es d,
+      Forall (good_entry sec) es ->
+      load_section tbl feats sec (map (fun e => fst (fst e)) es) d
+      = update tbl feats sec
+               (map (fun e => (lower (strip (snd (fst e))),
+                               VS (SStr (file_text (snd e))))) es) d.
+  Proof.
+    intros sec es. induction es as [|[[line rawvar] rawval] es IH];
+      intros d Hg; cbn [map load_section update fst snd].
+    - reflexivity.
+    - inversion Hg as [|e0 es0 Hg1 Hg2]. subst.
+      destruct Hg1 as [H1 [H2 [H3 [H4 [H5 H6]]]]].
+      rewrite (line_route_agrees tbl feats sec line rawvar rawval d
+                                 H1 H2 H3 H4 H5 H6).
+      destruct (setitem tbl feats sec (lower (strip rawvar))
+                        (VS (SStr (file_text rawval))) d) as [d1 ws1|e|];
+        try reflexivity.
+      rewrite (IH d1 Hg2). reflexivity.
+  Qed.
+End Update.
+
+(* ------------------------------------------------------------------ *)
+(* carry-over by export.hdf5 and the command-line tools                 *)
+(* ------------------------------------------------------------------ *)
+Lemma h5_idem : forall w x, h5 w = Ok x -> h5 x = Ok x.
+Proof.
+  intros w x H. destruct w as [y|t l|t l|d y|d l|d l]; cbn [h5] in H.
+  - destruct y; try discriminate H.
+    + destruct (forallb (fun c => negb (c =? 0)) s) eqn:E; [|discriminate H].
+      injection H as H. subst x. cbn [h5]. rewrite E. reflexivity.
+    + injection H as H. subst x. reflexivity.
+    + destruct (int64_ok n) eqn:E; [|discriminate H].
+      injection H as H. subst x. cbn [h5]. rewrite E. reflexivity.
+    + injection H as H. subst x. reflexivity.
+    + injection H as H. subst x. reflexivity.
+    + destruct (int64_ok n) eqn:E; [|discriminate H].
+      injection H as H. subst x. cbn [h5]. rewrite E. reflexivity.
+    + injection H as H. subst x. reflexivity.
+    + injection H as H. subst x. reflexivity.
+  - destruct (seq_dtype l); [|discriminate H].
+    injection H as H. subst x. reflexivity.
+  - destruct l as [|r l']; [discriminate H|].
+    destruct (all_len (length r) (r :: l')); [|discriminate H].
+    destruct (seq_dtype (concat (r :: l'))); [|discriminate H].
+    injection H as H. subst x. reflexivity.
+  - destruct d.
+    + injection H as H. subst x. reflexivity.
+    + destruct y; try discriminate H.
+      destruct (int64_ok (Z.quot m 8)) eqn:E; [|discriminate H].
+      injection H as H. subst x. cbn [h5]. rewrite E. reflexivity.
+    + injection H as H. subst x. reflexivity.
+  - injection H as H. subst x. reflexivity.
+  - injection H as H. subst x. reflexivity.
+Qed.
+
+Section Carry.
+  Variable tbl : list row.
+  Variable feats : list str.
+  Variable sections : list str.
+
+  (* keys with a converter: after any number of export hops the file holds
+     exactly the normalised original *)
+  Theorem carry_hops_stable : forall sec key v v1 w x,
+      lower key = key ->
+      str_eqb sec s_user = false ->
+      mem_str sec sections = true ->
+      key_exists tbl feats sec key = true ->
+      roundtrippable (func_of tbl sec key) = true ->
+      decode v = Ok v1 -> clean v1 = true ->
+      apply (func_of tbl sec key) v1 = Ok w -> h5 w = Ok x ->
+      forall n, carry_hops tbl feats sections n sec key v = Done [(key, w)] [].
+  Proof.
+    intros sec key v v1 w x Hl Hu Hs Hk Hr Ed Hc Ha Hx n.
+    induction n as [|n IH]; cbn [carry_hops].
+    - destruct (h5_route_agrees tbl feats sections sec key v v1 w x []
+                                Hl Hu Hs Hk Hr Ed Hc Ha Hx) as [E1 E2].
+      rewrite E1, E2. reflexivity.
+    - rewrite IH. cbn [stored_of dget]. rewrite Hl, str_eqb_refl.
+      pose proof (apply_clean _ _ _ Hc Ha) as Hcw.
+      destruct (h5_route_agrees tbl feats sections sec key w w w x []
+                  Hl Hu Hs Hk Hr (decode_of_clean w Hcw) Hcw
+                  (apply_idempotent _ _ _ Ha) Hx) as [E1 E2].
+      rewrite E1, E2. reflexivity.
+  Qed.
+
+  (* user-defined entries: what the first file holds is a fixed point of
+     every further hop, and it compares equal to the original *)
+  Theorem carry_hops_user_stable : forall key v v1 x,
+      decode v = Ok v1 -> clean v1 = true -> h5 v1 = Ok x ->
+      strip (lower key) <> [] ->
+      (forall n, carry_hops tbl feats sections n s_user key v
+                 = Done [(lower key, x)] []) /\
+      (wf_arr0 v1 = true -> nf x = nf v1).
+  Proof.
+    intros key v v1 x Ed Hc Hx Hk.
+    assert (Hcx : clean x = true) by (apply (h5_clean _ _ Hc Hx)).
+    assert (Hset : forall y, clean y = true ->
+              setitem tbl feats s_user key y [] = Done [(lower key, y)] []).
+    { intros y Hy. rewrite setitem_eq, (decode_of_clean y Hy).
+      assert (verify tbl feats s_user (lower key) = None) as Hv.
+      { unfold verify, key_exists. rewrite str_eqb_refl.
+        destruct (strip (lower key)); [contradiction|reflexivity]. }
+      rewrite (warns_nil_clean _ _ _ _ _ Hv Hy).
+      unfold func_of. rewrite str_eqb_refl. reflexivity. }
+    split; [|intro Hwf; apply h5_preserves_value; assumption].
+    induction n as [|n IH]; cbn [carry_hops].
+    - unfold h5_route. rewrite Ed, str_eqb_refl, Hx. apply Hset. exact Hcx.
+    - rewrite IH. cbn [stored_of dget]. rewrite str_eqb_refl.
+      unfold h5_route. rewrite (decode_of_clean x Hcx), str_eqb_refl.
+      rewrite (h5_idem _ _ Hx). apply Hset. exact Hcx.
+  Qed.
+End Carry.
